@@ -33,30 +33,28 @@ def uni2tex(text):
         0x0306: "u",
         0x030C: "v",
     }
-    out = ""
-    txt = tuple(text)
-    i = 0
-    while i < len(txt):
-        char = text[i]
+    out = []
+    for char in text:
         code = ord(char)
+        decomp = unicodedata.decomposition(char).split()
 
-        # combining marks
+        # combining marks apply to the character that precedes them
         if unicodedata.category(char) in ("Mn", "Mc") and code in accents:
-            out += "\\%s{%s}" % (accents[code], txt[i + 1])
-            i += 1
-        # precomposed characters
-        elif unicodedata.decomposition(char):
-            base, acc = unicodedata.decomposition(char).split()
-            acc = int(acc, 16)
-            base = int(base, 16)
-            if acc in accents:
-                out += "\\%s{%s}" % (accents[acc], chr(base))
+            if out:
+                out[-1] = "\\%s{%s}" % (accents[code], out[-1])
             else:
-                out += char
+                out.append(char)
+        # precomposed characters (canonical base + accent pairs only)
+        elif len(decomp) == 2 and not decomp[0].startswith("<"):
+            acc = int(decomp[1], 16)
+            base = int(decomp[0], 16)
+            if acc in accents:
+                out.append("\\%s{%s}" % (accents[acc], chr(base)))
+            else:
+                out.append(char)
         else:
-            out += char
-        i += 1
-    return out
+            out.append(char)
+    return "".join(out)
 
 
 def get_latex_fontdoc(text, fontsize="11pt", preamble=""):
